@@ -61,7 +61,7 @@ def plan(tier, seed):
             else:
                 wrapped = 'cnl::wide_integer<%d, %s>' % (bits(b) - (1 if signed(b) else 0), 'int' if signed(b) else 'unsigned')
             regs.append('c03::VsBuiltin<%s, %s, %s>::reg("%s|%s")' % (t, b, wrapped, tl, short(b)))
-    cases = 8000 if quick else 100000
+    cases = 20000 if quick else 150000
     units = [Unit('C03-gxx-%d' % i, 'gxx', 'props/C03.h', part, rc_cases=cases, enum_max=2 ** 17, chunk=10)
              for i, part in enumerate(split(regs, 16))]
     cl = [r for r in regs if 'elastic|' in r][:12] + [r for r in regs if 'scaled|int:' in r][:10] + [r for r in regs if 'wide|' in r][:6]
